@@ -76,7 +76,9 @@ SRC_SPECS = [
 ]
 
 RULE = ('planets 0.01-20 M_J, 0.1-3 R_J; 1-200 layers (quota for 1, 2, 3); pressure ranges pmin<pmax over 1e-6..1e8 Pa; '
-        'temperature profiles isothermal / 2-point / Guillot / arbitrary positive array; mean molecular weight constant '
+        'temperature profiles isothermal / 2-point / Guillot / arbitrary positive array (quota: whole-number temperatures held '
+        'in an INTEGER array - TemperatureArray(tp_array=[ints], one per layer) in the model stream, int64/int32 arrays handed to '
+        'calculate_scale_properties); mean molecular weight constant '
         'or varying with height (TwoLayerGas); pressure grids: SimplePressureProfile, ArrayPressureProfile (given or '
         'reversed, log-regular / jittered / wild), FilePressureProfile (text file in Pa, bar, mbar); plus calculate_scale_properties on arbitrary strictly decreasing levels '
         'with random T and mu; re-use stream: one SimplePressureProfile / one built model whose bounds, planet mass '
@@ -389,11 +391,18 @@ def eval_direct(ctx, c):
     mu = np.asarray(c['mu'], float)
     n = len(T)
     small = dict(kind='direct', mass=mass, radius=radius, T=T, pl=pl, mu=mu)
+    if c.get('tdtype'):
+        small['tdtype'] = str(c['tdtype'])
     planet = Planet(mass, radius)
     M, R = float(planet.fullMass), float(planet.fullRadius)
     gm = k['G'] * M
+    # quota: the temperature array as the caller holds it - whole-number temperatures in an INTEGER array (what
+    # np.array([1800, 1700, ...]) or TemperatureArray(tp_array=[1800, ...]) hands over); the relations are judged with the
+    # same temperatures as doubles
+    Tin = T.astype(c['tdtype']) if c.get('tdtype') else T
     with np.errstate(all='ignore'):
-        z, H, g, dz = planet.calculate_scale_properties(T, pl, mu)
+        z, H, g, dz = planet.calculate_scale_properties(Tin, pl, mu)
+    z, H, g, dz = (np.asarray(a, float) for a in (z, H, g, dz))
     if not (np.all(np.isfinite(z)) and z[-1] < 1e3 * R):
         ctx.malformed_outcome('unbound-atmosphere:' + ('finite' if np.all(np.isfinite(z)) else 'nonfinite'))
         return
@@ -403,6 +412,7 @@ def eval_direct(ctx, c):
     ctx.bucket('T:' + str(c.get('tkind')))
     ctx.bucket('mu:' + str(c.get('mukind')))
     ctx.bucket('levels:' + str(c.get('pkind')))
+    ctx.bucket('T-dtype:' + str(c.get('tdtype') or 'float64'))
     if not C.close(planet.gravity, gm / R ** 2, 1e-12) or not C.close(planet.gravity_at_height(z[-1]),
                                                                       gm / (R + z[-1]) ** 2, 1e-12):
         ctx.violation('gravity-inverse-square:Planet', 'Planet.gravity / gravity_at_height is not GM/(R+h)^2', small)
@@ -424,7 +434,7 @@ def eval_direct(ctx, c):
         try:
             f = float(conversion_factor('m', unit))
             with np.errstate(all='ignore'):
-                zu, Hu, gu, dzu = planet.calculate_scale_properties(T, pl, mu, length_units=unit)
+                zu, Hu, gu, dzu = planet.calculate_scale_properties(Tin, pl, mu, length_units=unit)
         except Exception as e:
             ctx.violation('length-units-raises:' + unit, 'calculate_scale_properties(length_units=%r) raised %r' % (unit, e),
                           small)
@@ -483,7 +493,11 @@ def gen_direct(rng, k):
     mu = np.full(n, mu_amu * AMU) if mukind == 'const' else rng.uniform(2.0, 44.0, n) * AMU
     tkind = ['isothermal', 'linear', 'random'][int(rng.integers(0, 3))]
     T = bounded_T(rng, n, mass, radius, 2.0, decades, tkind)
-    return dict(mass=mass, radius=radius, T=T, pl=pl, mu=mu, tkind=tkind, mukind=mukind, pkind=pkind)
+    c = dict(mass=mass, radius=radius, T=T, pl=pl, mu=mu, tkind=tkind, mukind=mukind, pkind=pkind)
+    if k % 5 == 4:                       # quota: whole-number temperatures held in an integer array
+        c['T'] = np.maximum(np.floor(T), 1.0)
+        c['tdtype'] = ['int64', 'int32'][(k // 5) % 2]
+    return c
 
 
 # ----------------------------------------------------------------------------- stream 3: a real forward model
@@ -500,6 +514,7 @@ def build_model(c, comps=None):
     from taurex.data import Planet
     from taurex.data.stellar import BlackbodyStar
     from taurex.data.profiles.temperature import Isothermal, NPoint, Guillot2010
+    from taurex.data.profiles.temperature.temparray import TemperatureArray
     from taurex.data.profiles.temperature.tprofile import TemperatureProfile
     from taurex.data.profiles.chemistry import TaurexChemistry, ConstantGas, TwoLayerGas
     from taurex.data.profiles.pressure import ArrayPressureProfile
@@ -528,6 +543,9 @@ def build_model(c, comps=None):
         tp = NPoint(T_surface=float(c['T'][0]), T_top=float(c['T'][1]))
     elif tk == 'guillot':
         tp = Guillot2010(T_irr=float(c['T'][0]))
+    elif c.get('tarray') == 'TemperatureArray-int':
+        # one whole-number temperature per layer typed as plain ints: TemperatureArray hands its int64 array on unchanged
+        tp = TemperatureArray(tp_array=[int(t) for t in c['T']])
     else:
         tp = ArrayT(c['T'])
     if 'chemistry' in comps:
@@ -651,6 +669,8 @@ def judge_model(ctx, m, c, small, stream):
              bucket=stream + ':pressure:' + c['pkind'])
     ctx.bucket('layers:%s' % (n if n < 4 else '4+'))
     ctx.bucket('T:' + c['tkind'])
+    if c['tkind'] == 'array':
+        ctx.bucket(stream + ':T-array:' + str(c.get('tarray') or 'float-array') + ':dtype=' + str(np.asarray(m.temperatureProfile).dtype))
     ctx.bucket('mu:' + c['mukind'])
     # -- one value per layer, aligned with the pressure profile
     if n != int(c['n']):
@@ -803,6 +823,10 @@ def gen_model_case(rng, k):
         Tb = np.minimum(Tb, 2500.0)
     c['T'] = Tb[:n] if tkind == 'array' else Tb[:2]
     c['tkind'] = tkind
+    if tkind == 'array' and k % 2 == 1:
+        # quota: the per-layer temperatures typed as whole numbers (plain ints) into the stock TemperatureArray class
+        c['T'] = np.maximum(np.floor(c['T']), 1.0)
+        c['tarray'] = 'TemperatureArray-int'
     c['ratio'] = float(rng.uniform(0.05, 0.3))
     c['h2o'] = float(10 ** rng.uniform(-8, -1))
     c['mukind'] = 'varying' if rng.random() < 0.5 else 'const'
@@ -858,6 +882,7 @@ def gen_contrib_case(rng, k):
         if c['tkind'] == 'array':
             c['T'] = np.asarray(c['T'], float)[:n]
     c.pop('file', None)
+    c.pop('tarray', None)                 # (the contribution kernels are compiled for double temperatures)
     types = [CONTRIB_TYPES[k % len(CONTRIB_TYPES)]]
     for t in CONTRIB_TYPES:
         if t not in types and rng.random() < 0.3:
